@@ -1,7 +1,7 @@
 (* The short specification of the store: a finite map from key paths to entries, used
    pointwise.  "accepted" is what the server answered; the specification says what the
    answer of every read must be and how every accepted write changes the map. *)
-From WB Require Import Base.Str Base.Json Model.Key Model.Store Model.Match Model.Entry Model.Core.
+From WB Require Import Base.Str Base.Json Model.Key Model.Consts Model.Store Model.Match Model.Entry Model.Core.
 
 Definition mstate := list str -> option entry.
 Definition m_empty : mstate := fun _ => None.
@@ -29,7 +29,7 @@ Definition write_effect (m m' : mstate) (o : op) (r : result) : Prop :=
   | OCSet _ k v n f, RUnit => exists p, parse_segments k = Ok p /\ meq m' (m_set m p (cset_entry m p v n f))
   | ODelete _ k, RValue x => exists p e, parse_segments k = Ok p /\ m p = Some e /\ x = entry_val e /\ meq m' (m_del m p)
   | OPDelete _ pat, RKvs _ => meq m' (m_pdel m (kseg_parse pat))
-  | OImport j, RImported _ => exists other, dec_persisted j = Some other /\ meq m' (m_import m other)
+  | OImport j, RImported _ => exists other, dec_persisted j = Some other /\ meq m' (m_import m (strip_sys s_SYS other))   (* $SYS is not imported (F29) *)
   | _, _ => meq m' m        (* reads, and every request answered with an error *)
   end.
 
